@@ -177,7 +177,13 @@ fn run_shard(sh: &mut Shard) {
 		"C16" => {
 			let n = scaled(sh, 140, 2_800);
 			let (r, _p) = if sh.tier == "thorough" { (400, 0) } else { (60, 0) };
-			sh.run_workloads("threaded", n, c16::workload(), r, 0, |wl, base| c16::execute(wl, base));
+			if !sh.run_workloads("threaded", n, c16::workload(), r, 0, |wl, base| c16::execute(wl, base)) {
+				return
+			}
+			// a committer throttled on the full queue (> 16 MiB) when the workers fail
+			let n = scaled(sh, 28, 280);
+			let r = if sh.tier == "thorough" { 60 } else { 40 };
+			sh.run_workloads("threaded-burst", n, c16::workload_burst(), r, 0, |wl, base| c16::execute(wl, base));
 		},
 		_ => {},
 	}
